@@ -411,10 +411,10 @@ Section Proofs.
       apply replace_inv; [assumption|]. intros c H. unfold remove_redundant_gates in H. eapply bind_build_id; eassumption.
     - destruct (nth_error s i) as [a|]; [|assumption].
       apply push_inv; [assumption|]. intros c H. unfold merge_rotations_fn in H.
-      eapply (bind_build _ (fun co => snd co)); eassumption.
+      eapply bind_build_id; eassumption.
     - destruct (nth_error s i) as [a|]; [|assumption].
       apply replace_inv; [assumption|]. intros c H. unfold merge_rotations_fn in H.
-      eapply (bind_build _ (fun co => snd co)); eassumption.
+      eapply bind_build_id; eassumption.
     - (* OSimplifyFn *) destruct (nth_error s i) as [a|]; [|assumption].
       apply push_inv; [assumption|]. intros c H. unfold simplify in H.
       destruct (copy_c Ang T a) as [c0|] eqn:Hc0; simpl in H; [|discriminate].
